@@ -169,7 +169,11 @@ func (c *Context) lockChildren() (unlock func()) {
 		return func() {}
 	}
 	c.system.actorOfLock.Lock()
-	return c.system.actorOfLock.Unlock
+	verifhook.At("lock.acq", c, "actorOfLock")
+	return func() {
+		verifhook.At("lock.rel", c, "actorOfLock")
+		c.system.actorOfLock.Unlock()
+	}
 }
 
 func (c *Context) ActorOf(actor vivid.Actor, options ...vivid.ActorOption) (vivid.ActorRef, error) {
